@@ -10,6 +10,7 @@ package face
 import (
 	"errors"
 	"fmt"
+	enc "github.com/named-data/ndnd/std/encoding"
 	"net"
 	"strconv"
 	"strings"
@@ -127,17 +128,38 @@ func (t *UnicastUDPTransport) sendFrame(frame []byte) {
 func (t *UnicastUDPTransport) runReceive() {
 	defer t.Close()
 
-	err := readTlvStream(t.conn, func(b []byte) {
-		t.nInBytes += uint64(len(b))
+	// A datagram carries exactly one frame. Each datagram is judged on its own: one that is not a single
+	// whole TLV block is dropped without touching the datagrams that follow.
+	recvBuf := make([]byte, defn.MaxNDNPacketSize+1)
+	for {
+		n, err := t.conn.Read(recvBuf)
+		if err != nil {
+			// Ignore since UDP is a connectionless protocol
+			// This happens if the other side is not listening (ICMP)
+			if strings.Contains(err.Error(), "connection refused") {
+				continue
+			}
+			if t.running.Load() {
+				core.LogWarn(t, "Unable to read from socket (", err, ") - Face DOWN")
+			}
+			return
+		}
+
+		rdr := enc.NewBufferReader(recvBuf[:n])
+		typ, err := enc.ReadTLNum(rdr)
+		if err != nil {
+			continue
+		}
+		length, err := enc.ReadTLNum(rdr)
+		if err != nil || length > defn.MaxNDNPacketSize ||
+			typ.EncodingLength()+length.EncodingLength()+int(length) != n {
+			core.LogDebug(t, "Received datagram that is not one TLV block - DROP")
+			continue
+		}
+
+		t.nInBytes += uint64(n)
 		*t.expirationTime = time.Now().Add(udpLifetime)
-		t.linkService.handleIncomingFrame(b)
-	}, func(err error) bool {
-		// Ignore since UDP is a connectionless protocol
-		// This happens if the other side is not listening (ICMP)
-		return strings.Contains(err.Error(), "connection refused")
-	})
-	if err != nil && t.running.Load() {
-		core.LogWarn(t, "Unable to read from socket (", err, ") - Face DOWN")
+		t.linkService.handleIncomingFrame(recvBuf[:n])
 	}
 }
 
